@@ -106,6 +106,7 @@ GET_STRING_FCN(_mpt_convert_uint, mpt_culong,  unsigned long)
 extern int _mpt_convert_uint(void *val, size_t vlen, const char *src, int base)
 {
 	uintmax_t tmp;
+	const char *sign;
 	char *end;
 	
 	if (!(end = (char *) src)) {
@@ -128,6 +129,14 @@ extern int _mpt_convert_uint(void *val, size_t vlen, const char *src, int base)
 	}
 	/* number exceeds largest integer type, value was saturated */
 	if (errno == ERANGE) {
+		return MPT_ERROR(BadValue);
+	}
+	/* number with minus sign, value was negated modulo 2^64 */
+	sign = src;
+	while (isspace(*sign)) {
+		++sign;
+	}
+	if (*sign == '-') {
 		return MPT_ERROR(BadValue);
 	}
 	switch (vlen) {
